@@ -271,7 +271,8 @@ uint64_t progress_count();
 void watchdog_start(const WatchdogCfg& cfg, HangFn on_hang);
 void watchdog_pause(bool paused);      // e.g. during long single operations that are known to be slow
 void watchdog_stop();
-void suspend_gate();                   // background helpers (keeper) block here, without timeouts, while the watchdog is deciding
+void suspend_gate(const std::atomic<bool>* stop = nullptr);   // background helpers (keeper) block here, without timeouts, while the watchdog is deciding (or until *stop)
+void gate_wake();                      // call after setting the stop flag of a helper that may be parked in suspend_gate()
 
 // ------------------------------------------------------------------------------------------------ misc
 std::string stacks_dump(int frames = 30, size_t max_bytes = 16000);   // gdb -batch back-traces of all threads of this process (witness for hang verdicts)
@@ -469,7 +470,8 @@ void progress() { g_progress.fetch_add(1, std::memory_order_relaxed); }
 uint64_t progress_count() { return g_progress.load(std::memory_order_relaxed); }
 static std::atomic<bool> g_wd_stop{false}, g_wd_paused{false};
 static std::mutex g_gate_m; static std::condition_variable g_gate_cv;
-void suspend_gate() { if (!g_perturb.suspended.load(std::memory_order_relaxed)) return; std::unique_lock<std::mutex> l(g_gate_m); g_gate_cv.wait(l, [] { return !g_perturb.suspended.load(); }); }
+void suspend_gate(const std::atomic<bool>* stop) { if (!g_perturb.suspended.load(std::memory_order_relaxed)) return; std::unique_lock<std::mutex> l(g_gate_m); g_gate_cv.wait(l, [stop] { return !g_perturb.suspended.load() || (stop && stop->load()); }); }
+void gate_wake() { { std::lock_guard<std::mutex> l(g_gate_m); } g_gate_cv.notify_all(); }
 static std::thread* g_wd_thread = nullptr;
 
 struct TaskSample { int tid; char state; uint64_t run_ns; uint64_t slices; };
